@@ -272,6 +272,7 @@ func c20E2E(c *Ctx) {
 		err := cmd.Run()
 		var res struct {
 			Codes    []int64 `json:"codes"`
+			Bad      int     `json:"bad"` // downloads whose gunzipped, re-parsed content is not the profile
 			Compared int     `json:"compared"`
 			Equal    int     `json:"equal"`
 		}
@@ -285,18 +286,24 @@ func c20E2E(c *Ctx) {
 		}
 		c.dist["e2e-webfirst:pages-compared"] += res.Compared
 		c.dist["e2e-webfirst:pages-identical"] += res.Equal
-		c.Case(gen, L(S("e2e-webfirst"), ZI(nfuncs), ZI(k), ZI(mix)), L(Bool(err == nil), Zs(res.Codes)), true, "op:e2e-webfirst")
+		c.Case(gen, L(S("e2e-webfirst"), ZI(nfuncs), ZI(k), ZI(mix)), L(Bool(err == nil), Zs(res.Codes), ZI(res.Bad)), true, "op:e2e-webfirst")
 	}
 	if os.Getenv("VERIF_C20_RACE") != "" { // under the race detector everything is ~10x slower: smaller profiles
 		webFirst("e2e-webfirst-flamegraph", 600, 8, 0)
 		webFirst("e2e-webfirst-mixed", 400, 8, 1)
+		webFirst("e2e-webfirst-download", 800, 6, 2)
 	} else {
 		webFirst("e2e-webfirst-flamegraph", 3000, 8, 0)
 		webFirst("e2e-webfirst-flamegraph", 3000, 8, 0)
 		webFirst("e2e-webfirst-mixed", 1500, 8, 1)
+		// the FIRST downloads of a fresh web interface, together, on a large profile; then pages and
+		// downloads mixed
+		webFirst("e2e-webfirst-download", 20000, 8, 2)
+		webFirst("e2e-webfirst-download", 20000, 3, 2)
+		webFirst("e2e-webfirst-download+pages", 6000, 8, 3)
 	}
 	for n := 0; n < c.Budget(0, 12); n++ {
-		webFirst("e2e-webfirst-random", 500+c.R.Intn(4000), 2+c.R.Intn(10), c.R.Intn(2))
+		webFirst("e2e-webfirst-random", 500+c.R.Intn(4000), 2+c.R.Intn(10), c.R.Intn(4))
 	}
 }
 
@@ -329,11 +336,30 @@ func c20WebChild(args []string) {
 	src := filepath.Join(cwd, "src.pb.gz")
 	os.WriteFile(src, c20ProfileBytes(p), 0o644)
 	paths := []string{"/flamegraph"}
-	if mix == 1 {
+	switch mix {
+	case 1:
 		paths = []string{"/flamegraph", "/top", "/flamegraph?f=pkg1", "/peek?f=Method1", "/flamegraph?sf=Class"}
+	case 2:
+		paths = []string{"/download"}
+	case 3:
+		paths = []string{"/download", "/top", "/download", "/flamegraph"}
+	}
+	// what a download must contain: the profile itself (gunzipped and parsed back)
+	okDownload := func(body string) bool {
+		q, err := profile.ParseData([]byte(body))
+		if err != nil || len(q.Sample) != len(p.Sample) || len(q.Function) != len(p.Function) || len(q.Location) != len(p.Location) {
+			return false
+		}
+		var a, b int64
+		for i := range q.Sample {
+			a += q.Sample[i].Value[0]
+			b += p.Sample[i].Value[0]
+		}
+		return a == b
 	}
 	var result struct {
 		Codes    []int64 `json:"codes"`
+			Bad      int     `json:"bad"` // downloads whose gunzipped, re-parsed content is not the profile
 		Compared int     `json:"compared"`
 		Equal    int     `json:"equal"`
 	}
@@ -369,6 +395,16 @@ func c20WebChild(args []string) {
 		close(gate)
 		wg.Wait()
 		result.Codes = codes
+		for i := 0; i < k; i++ {
+			if strings.HasPrefix(paths[i%len(paths)], "/download") && !okDownload(bodies[i]) {
+				result.Bad++
+			}
+		}
+		if mix >= 2 { // and the download a later, single request gets (a corrupt first result must not stay cached)
+			if _, b := serve("/download"); !okDownload(b) {
+				result.Bad++
+			}
+		}
 		for i := 0; i < k; i++ { // afterwards, one at a time (pages are only counted: tie orders are C08's subject)
 			_, b := serve(paths[i%len(paths)])
 			_, b2 := serve(paths[i%len(paths)])
